@@ -253,6 +253,53 @@ pub fn check_mut_case(input: &FstInput, pos: usize, bytes: &[u8]) -> CheckResult
     check_mut(&MutCase { input: input.clone(), pos, bytes: bytes.to_vec() }, &mut Rec::new(0))
 }
 
+/// Long CRC input at a given slice alignment (data derived from `seed`).
+fn check_crc_long(l: &usize, off: &usize, seed: u64, rec: &mut Rec) -> CheckResult {
+    rec.eval();
+    let buf: Vec<u8> = (0..(l + off)).map(|i| crate::engine::mix(seed, i as u64 / 7) as u8).collect();
+    let data = &buf[*off..];
+    let want = crcref::masked(data);
+    let got = fst::raw::verif::masked_crc32c(&[data]);
+    vensure!(got == want, "crc-differential", "masked CRC-32C of {} bytes (slice offset {}) is {:#010x}, the bitwise reference gives {:#010x}", l, off, got, want);
+    let mid = l / 2 + 1;
+    let got2 = fst::raw::verif::masked_crc32c(&[&data[..mid], &data[mid..]]);
+    vensure!(got2 == want, "crc-differential", "masked CRC-32C of {} bytes in two chunks differs from the reference", l);
+    rec.nontrivial(H::new().u(*l as u64).u(*off as u64).get());
+    rec.class("crc_long_input");
+    Ok(())
+}
+
+/// Sampled single-bit corruption of one large built file.
+fn check_big_corruption(r: &gen::Recipe, extra_positions: u64, rec: &mut Rec) -> CheckResult {
+    let pairs = r.pairs();
+    let orig = gen::build_plain(&pairs, false).map_err(|m| Fail::new("build-error", m))?;
+    drop(pairs);
+    let n = orig.len();
+    rec.class(if n > 1 << 24 { "corrupted_file_over_16MiB" } else if n > 1 << 16 { "corrupted_file_over_64KiB" } else { "corrupted_file_small" });
+    let f = fst::raw::Fst::new(&orig[..]).map_err(|e| Fail::new("open-failed", format!("{:?}", e)))?;
+    if let Err(e) = f.verify() {
+        vfail!("verify-built", "verify() fails on a freshly built {}-byte FST: {:?}", n, e);
+    }
+    let mut m = orig.clone();
+    let mut positions: Vec<usize> = vec![16, 17, 255, 256, 4095, 4096, 65_535, 65_536, 65_537, n - 5, n - 6, n - 21, n - 22, n - 37, n / 2, n / 3];
+    positions.extend([(1usize << 24) - 1, 1 << 24, (1 << 24) + 1].into_iter().filter(|&p| p < n - 4));
+    for j in 0..extra_positions {
+        positions.push((crate::engine::mix(r.seed, j) % (n as u64 - 4)) as usize);
+    }
+    for pos in positions {
+        if pos >= n {
+            continue;
+        }
+        let x = 1u8 << (pos % 8);
+        m[pos] ^= x;
+        let res = judge(&orig, &m, rec, &|| format!("{}-byte file, offset {} xor {:#04x}", n, pos, x));
+        m[pos] ^= x;
+        res?;
+        rec.nontrivial(H::new().u(r.seed).u(pos as u64).get());
+    }
+    Ok(())
+}
+
 pub fn run(e: &Engine) {
     crcref::self_test();
     e.set_rule("three families: (1) every build from C01's space must verify() and carry trailer == mask(crc32c(prefix)) per an independent bitwise CRC; (2) CRC differential: byte strings of every length 0..700 (4096 thorough) x 4 contents x chunkings with cut points around multiples of 16, through the hook masked_crc32c(chunks) and hook-free through a version-3 frame whose ChecksumMismatch{got} exposes the implementation's checksum; (3) corruption: every byte position x all 255 replacement values of small FSTs, sampled positions and 1..4-byte bursts of larger ones; a violation is a mutated copy that opens and verifies although its stored checksum is not the reference checksum of its body; non-trivial = mutation of a distinct (FST, position, xor) or CRC case of length >= 16 with a cut inside a 16-byte block");
@@ -312,55 +359,15 @@ pub fn run(e: &Engine) {
 
     // long inputs (fast path over thousands of 16-byte blocks) at every slice alignment
     let longs: Vec<(usize, usize)> = [4095usize, 4096, 4097, 65_535, 65_536, 65_537, (1 << 20) + 3].into_iter().flat_map(|l| (0..16usize).step_by(5).map(move |off| (l, off))).collect();
-    e.run_list("crc-long-inputs-x-alignments", &longs, |(l, off)| json!({"len": l, "offset": off}), |(l, off), rec| {
-        rec.eval();
-        let buf: Vec<u8> = (0..(l + off)).map(|i| crate::engine::mix(seed, i as u64 / 7) as u8).collect();
-        let data = &buf[*off..];
-        let want = crcref::masked(data);
-        let got = fst::raw::verif::masked_crc32c(&[data]);
-        vensure!(got == want, "crc-differential", "masked CRC-32C of {} bytes (slice offset {}) is {:#010x}, the bitwise reference gives {:#010x}", l, off, got, want);
-        let mid = l / 2 + 1;
-        let got2 = fst::raw::verif::masked_crc32c(&[&data[..mid], &data[mid..]]);
-        vensure!(got2 == want, "crc-differential", "masked CRC-32C of {} bytes in two chunks differs from the reference", l);
-        rec.nontrivial(H::new().u(*l as u64).u(*off as u64).get());
-        rec.class("crc_long_input");
-        Ok(())
-    });
+    e.run_list("crc-long-inputs-x-alignments", &longs, |(l, off)| json!({"len": l, "offset": off, "data_seed": seed.to_string()}), |(l, off), rec| check_crc_long(l, off, seed, rec));
     // corruption of large files: sampled positions incl. beyond 2^16 / 2^24 and the last blocks
     let bigfiles: Vec<gen::Recipe> = vec![
         gen::Recipe { kind: 1, n: 40_000, seed: e.seed ^ 0x81, fanout: 5, keylen: 12, values: 2 },
         gen::Recipe { kind: 2, n: 120_000, seed: e.seed ^ 0x82, fanout: 4, keylen: 14, values: 1 },
         gen::Recipe { kind: 1, n: e.tier.pick(2_300_000, 3_000_000), seed: e.seed ^ 0x16, fanout: 16, keylen: 12, values: 2 },
     ];
-    e.run_list("large-files-sampled-corruption", &bigfiles, |r| r.to_json(), |r, rec| {
-        let pairs = r.pairs();
-        let orig = gen::build_plain(&pairs, false).map_err(|m| Fail::new("build-error", m))?;
-        drop(pairs);
-        let n = orig.len();
-        rec.class(if n > 1 << 24 { "corrupted_file_over_16MiB" } else if n > 1 << 16 { "corrupted_file_over_64KiB" } else { "corrupted_file_small" });
-        let f = fst::raw::Fst::new(&orig[..]).map_err(|e| Fail::new("open-failed", format!("{:?}", e)))?;
-        if let Err(e) = f.verify() {
-            vfail!("verify-built", "verify() fails on a freshly built {}-byte FST: {:?}", n, e);
-        }
-        let mut m = orig.clone();
-        let mut positions: Vec<usize> = vec![16, 17, 255, 256, 4095, 4096, 65_535, 65_536, 65_537, n - 5, n - 6, n - 21, n - 22, n - 37, n / 2, n / 3];
-        positions.extend([(1usize << 24) - 1, 1 << 24, (1 << 24) + 1].into_iter().filter(|&p| p < n - 4));
-        for j in 0..e.tier.pick(40u64, 400) {
-            positions.push((crate::engine::mix(r.seed, j) % (n as u64 - 4)) as usize);
-        }
-        for pos in positions {
-            if pos >= n {
-                continue;
-            }
-            let x = 1u8 << (pos % 8);
-            m[pos] ^= x;
-            let res = judge(&orig, &m, rec, &|| format!("{}-byte file, offset {} xor {:#04x}", n, pos, x));
-            m[pos] ^= x;
-            res?;
-            rec.nontrivial(H::new().u(r.seed).u(pos as u64).get());
-        }
-        Ok(())
-    });
+    let extra_positions = e.tier.pick(40u64, 400);
+    e.run_list("large-files-sampled-corruption", &bigfiles, |r| r.to_json(), |r, rec| check_big_corruption(r, extra_positions, rec));
     // (3) exhaustive single-byte corruption of small FSTs
     let smalls: Vec<FstInput> = vec![
         FstInput::new(gen::Front::RawInsert, None, vec![]),
@@ -436,7 +443,13 @@ pub fn run(e: &Engine) {
 pub fn replay(sub: &str, case: &Value) -> Option<CheckResult> {
     let mut rec = Rec::new(0);
     Some(crate::engine::guarded(|| {
-        if sub.starts_with("crc-") {
+        if sub == "crc-long-inputs-x-alignments" {
+            let g = |k: &str| case.get(k).and_then(|x| x.as_u64()).map(|x| x as usize);
+            let seed: u64 = case.get("data_seed").and_then(|x| x.as_str()).and_then(|x| x.parse().ok()).ok_or_else(bad)?;
+            check_crc_long(&g("len").ok_or_else(bad)?, &g("offset").ok_or_else(bad)?, seed, &mut rec)
+        } else if sub == "large-files-sampled-corruption" {
+            check_big_corruption(&gen::Recipe::from_json(case).ok_or_else(bad)?, 400, &mut rec)
+        } else if sub.starts_with("crc-") {
             check_crc(&CrcCase::from_json(case).ok_or_else(bad)?, &mut rec)
         } else if sub.starts_with("built-") {
             check_built(&FstInput::from_json(case).ok_or_else(bad)?, &mut rec)
